@@ -14,7 +14,7 @@ import os
 
 PROPERTY = 'C14'
 LEVEL = 'model_checking'
-BUDGET_S = {'quick': 900, 'thorough': 7200}
+BUDGET_S = {'quick': 3600, 'thorough': 14400}
 
 TIER = {'quick': dict(P=2, E=1, BW=2, W=32, WO=32), 'thorough': dict(P=3, E=2, BW=3, W=48, WO=40)}
 SHAPES = ['fb', 'fu', 'mp', 'xb', 'xu', 'real']
